@@ -242,9 +242,32 @@ def sub(a: int, b: int) -> int:
     return a - b
 
 
+# No value on its way into a PDP-11 word needs a shift by more than this, and
+# Python would try to build a number with that many bits
+MAX_SHIFT_COUNT = 1 << 24
+
+
+def describe_count(count):
+    # pylint: disable=import-outside-toplevel,cyclic-import
+    from .metacommand_impl import describe_int
+    return describe_int(count)
+
+
+def shift_count_fits(token, count):
+    if abs(count) <= MAX_SHIFT_COUNT:
+        return True
+    reports.error(
+        "arithmetic-error",
+        (token.ctx_start, token.ctx_end, f"The shift count is too large: {describe_count(count)}")
+    )
+    return False
+
+
 @operator("x << x", precedence=5, associativity="left", awaited=False, pure=False, token=True)
 def lshift(token, a: int, b: int) -> int:
     b = wait(b)
+    if not shift_count_fits(token, b):
+        return 0
     if b >= 0:
         return a * 2 ** b
     else:
@@ -258,6 +281,8 @@ def lshift(token, a: int, b: int) -> int:
 @operator("x >> x", precedence=5, associativity="left", awaited=False, pure=False, token=True)
 def rshift(token, a: int, b: int) -> int:
     b = wait(b)
+    if not shift_count_fits(token, b):
+        return 0
     if b == 0:
         return a
     elif b > 0:
@@ -271,9 +296,12 @@ def rshift(token, a: int, b: int) -> int:
         return a * 2 ** (-b)
 
 
+
 # It seems they were running out of characters.
-@operator("x _ x", precedence=5, associativity="left")
-def lsh(a: int, b: int) -> int:
+@operator("x _ x", precedence=5, associativity="left", pure=False, token=True)
+def lsh(token, a: int, b: int) -> int:
+    if not shift_count_fits(token, b):
+        return 0
     if b >= 0:
         return a << b
     else:
